@@ -6,9 +6,11 @@ from props import trainmodel
 from props import fitfb
 
 IMPORTS = scen.IMPORTS
-TRUSTED = ["sub-model feedback senders are modelled only when all their nodes belong to the running model and are entirely upstream or entirely "
-           "downstream of the receiver (the `_fb_flag`s agree); senders straddling the receiver or living partly outside the model are probed by "
-           "the implementation oracle only",
+TRUSTED = ["sub-model feedback senders: ModelSem / ProxySem model them in sync (all `_fb_flag`s agree: all nodes in the running model, entirely upstream or "
+           "entirely downstream of the receiver); the flag-parity mechanism itself (reduced sender, senders straddling the receiver or lying partly "
+           "outside the model, stand-alone calls, aborted steps) is modelled in coq/model/SubSender.v and tied to /repo by run/RunSubSender.v (family "
+           "`subsender`): single receiver, chain senders of 2-3 nodes with one output node, nodes of a reduced sender without feedback of their own; "
+           "a raising receiver is taken to raise after it read its feedback",
            "offline fit use of targets as forced feedback and ESN.fit: modelled in coq/model/FitFb.v (theorems C05_fit_forced_*, correspondence "
            "props/fitfb.py) and additionally probed by the implementation oracle"] + trainmodel.TRUSTED + fitfb.TRUSTED
 ASSUMPTIONS = ["at rest all state proxies are None; receivers add 100 x feedback so that a timing error is an O(100) difference"] + trainmodel.ASSUMPTIONS + fitfb.ASSUMPTIONS
@@ -100,12 +102,267 @@ def correspondence(ctx):
     dist["fitfb"] = dict({k: ff[k] for k in ("evaluations", "distinct_nontrivial", "distribution", "rule")}, disagree=len(ff["failing"]))
     if ff["error"]:
         err = (err or "") + "fitfb: " + ff["error"]
+    # sub-model senders through the flag-parity mechanism (coq/model/SubSender.v, run/RunSubSender.v), sub-id <pid>_subsender
+    ss = subsender_run(ctx, ctx.n(60, 600))
+    dist["subsender"] = dict({k: ss[k] for k in ("evaluations", "distinct_nontrivial", "distribution", "rule")}, disagree=len(ss["failing"]))
+    if ss["error"]:
+        err = (err or "") + "subsender: " + ss["error"]
+    mt = dict(mt, evaluations=mt["evaluations"] + ss["evaluations"], distinct_nontrivial=mt["distinct_nontrivial"] + ss["distinct_nontrivial"],
+              failing=mt["failing"] + ss["failing"])
     return {"evaluations": n + mt["evaluations"] + ff["evaluations"], "distinct_nontrivial": len(nt) + mt["distinct_nontrivial"] + ff["distinct_nontrivial"],
             "rule": "feedback topologies {sender downstream, upstream, outside the forward graph, sub-model upstream, sub-model downstream, reservoir<-readout}; "
                     "histories run / continued run / run with forced feedback keyed by sender or receiver (shift on/off, reset) / call with forced feedback; "
                     "non-trivial = a feedback contribution (x100) is visible in some output; distinct by scenario text",
             "samples": keep[:2], "distribution": dist, "tolerance": "1e-9 relative (qclose)",
             "failing": [dict(keep[i], index=i) for i in failing] + mt["failing"] + ff["failing"], "error": err}
+
+
+# ------------------------------------------------------------------------------------------ family `subsender`
+# Sub-model feedback senders through the flag-parity mechanism (coq/model/SubSender.v, run/RunSubSender.v): receiver before / between /
+# after the sender's nodes, sender partly or wholly outside the model, reduced sender = one node (Node.call) or a chain of two
+# (Model.call: proxies loaded and washed in mid-step), stand-alone calls of any node between the runs, steps aborted by a raising node,
+# forced feedback.  The desynchronisation of the `_fb_flag` bits is real behaviour of HEAD: the model must PREDICT it, extra calls included.
+SS_IMPORTS = ("From Coq Require Import List QArith.\nFrom RV Require Import base.Num model.ModelSem model.ProxySem model.Kinds model.SubSender "
+              "run.RunModel run.RunSubSender.\nImport ListNotations.\nOpen Scope Q_scope.")
+SS_FAMILIES = ["before", "after", "straddle", "partly-outside", "outside", "mixed"]
+_ss_uid = [0]
+
+
+def _ss_gen(rng, i, family=None):
+    fam = family or SS_FAMILIES[i % len(SS_FAMILIES)]
+    d = rng.choice([1, 1, 2])
+    L = rng.choice([2, 2, 3])
+    send = list(range(1, L + 1))
+    nodes = [{"id": 0, "name": "R", "kind": "fbadd", "c": rng.choice([100, 100, core.fractions.Fraction(1, 8)]), "odim": d}]
+    for j in send:
+        if rng.random() < 0.6:
+            nodes.append({"id": j, "name": "s%d" % j, "kind": "acc", "odim": d})
+        else:
+            nodes.append({"id": j, "name": "s%d" % j, "kind": "fun", "a": rng.choice([1, 2, -1, core.fractions.Fraction(1, 2)]), "b": rng.choice([0, 1, -2, 3]),
+                          "odim": d})
+    nodes.append({"id": 9, "name": "z", "kind": "fun", "a": rng.choice([1, -1, 2]), "b": rng.choice([0, 1]), "odim": d})
+    if fam == "before":
+        order = [0] + send
+    elif fam == "after":
+        order = send + [0]
+    elif fam == "straddle":
+        k = rng.randint(1, L - 1)
+        order = send[:k] + [0] + send[k:]
+    elif fam == "partly-outside":
+        inside = [j for j in send if rng.random() < 0.5] or [send[0]]
+        if len(inside) == L:
+            inside = inside[:-1]
+        order = inside + [0]
+        rng.shuffle(order)
+    elif fam == "outside":
+        order = [0, 9] if rng.random() < 0.5 else [9, 0]
+    else:
+        inside = [j for j in send if rng.random() < 0.75]
+        order = inside + [0]
+        rng.shuffle(order)
+    if 9 not in order and (len(order) < 2 or rng.random() < 0.3):
+        order.insert(rng.randint(0, len(order)), 9)
+    sc = {"tag": i, "family": fam, "dim": d, "nodes": nodes, "sender": send, "order": order, "ops": []}
+    everyone = [0] + send + [9]
+
+    def run_op(fail=None):
+        T = rng.randint(1, 3)
+        o = {"op": "run", "X": scengen.rows(rng, T, d)}
+        if fail is None and rng.random() < 0.2:
+            o["fb"] = scengen.rows(rng, T, d)
+            o["shift_fb"] = rng.random() < 0.6
+        if fail is not None:
+            o["fail"] = [fail]
+        return o
+    sc["ops"].append(run_op())
+    for _ in range(rng.randint(2, 5)):
+        u = rng.random()
+        if u < 0.35:
+            sc["ops"].append(run_op())
+        elif u < 0.6:       # ONE stand-alone call of a node (a sender node most of the time; the receiver reads its feedback then, too)
+            sc["ops"].append({"op": "node", "n": rng.choice(send + send + everyone), "x": scengen.rows(rng, 1, d)[0]})
+        elif u < 0.72:      # a run / call aborted by a node of the model raising at its first step
+            sc["ops"].append(run_op(fail=rng.choice(order)))
+        elif u < 0.8:       # a stand-alone receiver call whose reduced sender raises (only reached when the flags disagree)
+            sc["ops"].append({"op": "node", "n": 0, "x": scengen.rows(rng, 1, d)[0], "fail": [rng.choice(send[1:])]})
+        elif u < 0.9:
+            o = {"op": "call", "x": scengen.rows(rng, 1, d)[0]}
+            if rng.random() < 0.3:
+                o["fb"] = scengen.rows(rng, 1, d)[0]
+            sc["ops"].append(o)
+        else:               # with R.with_feedback(v): R(x1); R(x2)  -- the forced value is consumed by the first read
+            sc["ops"].append({"op": "withfb", "n": 0, "v": scengen.rows(rng, 1, d)[0], "xs": scengen.rows(rng, rng.randint(1, 3), d)})
+        if rng.random() < 0.5:
+            sc["ops"].append(run_op())
+    sc["ops"].append(run_op())
+    return sc
+
+
+class _SSBuilt:
+    """the real objects of a `subsender` scenario"""
+
+    def __init__(self, sc):
+        import functools
+        import reservoirpy as rpy
+        rpy.verbosity(0)
+        from reservoirpy.node import Node
+        _ss_uid[0] += 1
+        pre = "ssn%s_%d" % (sc["tag"], _ss_uid[0])
+        self.sc, self.fail, self.cnt, self.nodes = sc, set(), {}, {}
+        d = sc["dim"]
+
+        def init(node, x=None, **kw):
+            node.set_input_dim(d); node.set_output_dim(d)
+
+        def fb_init(node, feedback=None):
+            node.set_feedback_dim(np.asarray(feedback).shape[-1])
+        for nd in sc["nodes"]:
+            self.cnt[nd["id"]] = 0
+            self.nodes[nd["id"]] = Node(forward=self._forward(nd), initializer=init, fb_initializer=fb_init, input_dim=d, output_dim=d,
+                                        name="%s_%s" % (pre, nd["name"]))
+        self.sender = functools.reduce(lambda a, b: a >> b, [self.nodes[j] for j in sc["sender"]])
+        self.nodes[0] <<= self.sender
+        self.model = functools.reduce(lambda a, b: a >> b, [self.nodes[j] for j in sc["order"]])
+        self.ids = {n.name: i for i, n in self.nodes.items()}
+
+    def _forward(self, nd):
+        i, k = nd["id"], nd["kind"]
+
+        def fwd(node, x):
+            self.cnt[i] += 1
+            fb = np.asarray(node.feedback()).reshape(1, -1) if k == "fbadd" else None     # a raising receiver raises AFTER it read its feedback
+            if i in self.fail:
+                raise scen.Boom("node %d raises" % i)
+            if k == "acc":
+                return x + node.state()
+            if k == "fun":
+                return float(nd["a"]) * x + float(nd["b"])
+            return x + float(nd["c"]) * fb
+        return fwd
+
+    def struct(self):
+        """observed execution order and parents of the model and of the sender, by ids"""
+        from reservoirpy.utils.graphflow import find_parents_and_children
+        order = [self.ids[n.name] for n in self.model.nodes]
+        par, _ = find_parents_and_children(self.model.edges)
+        parents = {self.ids[c.name]: [self.ids[p.name] for p in ps] for c, ps in par.items() if ps}
+        spar, _ = find_parents_and_children(self.sender.edges)
+        sparents = {self.ids[c.name]: [self.ids[p.name] for p in ps] for c, ps in spar.items() if ps}
+        red = self.nodes[0]._feedback._reduced_sender
+        redo = [self.ids[n.name] for n in red.nodes] if hasattr(red, "nodes") else [self.ids[red.name]]
+        return order, parents, {"all": [self.ids[n.name] for n in self.sender.nodes], "ins": [self.ids[n.name] for n in self.sender.input_nodes],
+                                "outs": [self.ids[n.name] for n in self.sender.output_nodes], "red": redo, "parents": sparents}
+
+    def observe(self):
+        st = {i: np.asarray(n.state()).ravel().tolist() for i, n in self.nodes.items() if n.is_initialized and n.state() is not None}
+        rest = all(n._state_proxy is None for n in self.nodes.values()) and not self.nodes[0]._feedback._clamped
+        return {"states": st, "flags": {i: bool(n._fb_flag) for i, n in self.nodes.items()}, "calls": dict(self.cnt), "rest": bool(rest)}
+
+
+def _ss_run_real(sc):
+    b = _SSBuilt(sc)
+    R = b.nodes[0]
+    obs = []
+    order = sc["order"]
+    for o in sc["ops"]:
+        b.fail = set(o.get("fail") or [])
+        ok, outs = True, []
+        try:
+            if o["op"] == "run":
+                kw = {}
+                if o.get("fb") is not None:
+                    kw = {"forced_feedbacks": {R.name: scen.fl(o["fb"])}, "shift_fb": o.get("shift_fb", True)}
+                res = b.model.run(scen.fl(o["X"]), return_states="all", **kw)
+                outs = [[np.asarray(res[b.nodes[j].name][t]).ravel().tolist() for j in order] for t in range(len(o["X"]))]
+            elif o["op"] == "call":
+                kw = {"forced_feedback": {R.name: scen.fl([o["fb"]])}} if o.get("fb") is not None else {}
+                res = b.model.call(scen.fl([o["x"]]), return_states="all", **kw)
+                outs = [[np.asarray(res[b.nodes[j].name]).ravel().tolist() for j in order]]
+            elif o["op"] == "node":
+                b.nodes[o["n"]].call(scen.fl([o["x"]]))
+            else:
+                with b.nodes[o["n"]].with_feedback(scen.fl([o["v"]])):
+                    for x in o["xs"]:
+                        b.nodes[o["n"]].call(scen.fl([x]))
+        except scen.Boom:
+            ok = False
+        finally:
+            b.fail = set()
+        obs.append(dict(b.observe(), ok=ok, outs=outs))
+    return b, obs
+
+
+def _ss_to_coq(sc, b, obs):
+    nat, q, qvec, qmat, coqlist, coqbool = core.nat, core.q, core.qvec, core.qmat, core.coqlist, core.coqbool
+    order, parents, sub = b.struct()
+    nodes = []
+    for nd in sc["nodes"]:
+        fb = "(Some (FbModel %s))" % coqlist([nat(j) for j in sub["outs"]]) if nd["id"] == 0 else "None"
+        nodes.append("mkSN %s %s %s %s []" % (nat(nd["id"]), scen.kind_term(nd), fb, nat(nd["odim"])))
+    plist = lambda ps: coqlist(["(%s, %s)" % (nat(c), coqlist([nat(p) for p in v])) for c, v in sorted(ps.items())])
+    model = "mkSM %s %s %s" % (coqlist([nat(j) for j in order]), plist(parents), coqlist([nat(j) for j in sc["order"]]))
+    ssub = "mkSSub 0%%nat %s %s %s %s %s" % (coqlist([nat(j) for j in sub["all"]]), coqlist([nat(j) for j in sub["ins"]]),
+                                            coqlist([nat(j) for j in sub["outs"]]), coqlist([nat(j) for j in sub["red"]]), plist(sub["parents"]))
+    entry = order[0]
+    ops = []
+    for o, ob in zip(sc["ops"], obs):
+        fail = coqlist([nat(j) for j in (o.get("fail") or [])])
+        if o["op"] == "run":
+            t = "SRun 0%%nat %s %s %s %s" % (coqlist(["[(%s, %s)]" % (nat(entry), qvec(r)) for r in o["X"]]), coqbool(o.get("shift_fb", True)),
+                                             ("[(0%%nat, %s)]" % qmat(o["fb"])) if o.get("fb") is not None else "[]", fail)
+        elif o["op"] == "call":
+            t = "SCallM 0%%nat [(%s, %s)] %s %s" % (nat(entry), qvec(o["x"]), ("[(0%%nat, %s)]" % qvec(o["fb"])) if o.get("fb") is not None else "[]", fail)
+        elif o["op"] == "node":
+            t = "SCallN %s %s %s" % (nat(o["n"]), qvec(o["x"]), fail)
+        else:
+            t = "SWithFb %s %s %s" % (nat(o["n"]), qvec(o["v"]), qmat(o["xs"]))
+        obt = "mkSObs %s %s %s %s %s %s" % (coqbool(ob["ok"]), coqlist([qmat(step) for step in ob["outs"]]), scen.pairs(ob["states"], qvec),
+                                            scen.pairs(ob["flags"], coqbool), scen.pairs(ob["calls"], nat), coqbool(ob["rest"]))
+        ops.append("(%s, %s)" % (t, obt))
+    return "chk_subsender %s [%s] [%s] %s" % (coqlist(nodes), model, ssub, coqlist(ops))
+
+
+def _ss_interesting(sc, obs):
+    """non-trivial = the reduced sender was really re-run at least once (some sender node entered more often than the model / the
+    stand-alone calls account for) or the flags of the sender's nodes disagree at rest after some operation"""
+    desync = any(len({ob["flags"][j] for j in sc["sender"]}) > 1 for ob in obs)
+    return desync
+
+
+def subsender_run(ctx, n):
+    rng = ctx.rng("corr-subsender")
+    terms, keep, nt, dist = [], [], set(), {}
+    for i in range(n):
+        sc = _ss_gen(rng, i)
+        try:
+            b, obs = _ss_run_real(sc)
+            term = _ss_to_coq(sc, b, obs)
+        except Exception as e:  # noqa: BLE001
+            terms.append("false")
+            keep.append({"kind": "subsender", "scenario": scen.jsonable(sc), "harness_error": repr(e)})
+            continue
+        terms.append(term)
+        keep.append({"kind": "subsender", "scenario": scen.jsonable(sc), "observed": scen.jsonable(obs)})
+        dist[sc["family"]] = dist.get(sc["family"], 0) + 1
+        if _ss_interesting(sc, obs):
+            nt.add(repr(scen.jsonable(sc)))
+    ok, log, bad = core.compile_cone(core.coq_cone("run/RunSubSender.v"))
+    if not ok:
+        return {"evaluations": n, "distinct_nontrivial": len(nt), "distribution": dist, "rule": "", "failing": [],
+                "error": "coqc failed on %s:\n%s" % (bad, log[-1500:])}
+    failing, err = core.run_cases(ctx.pid + "_subsender", SS_IMPORTS, terms, chunk=20)
+    return {"evaluations": n, "distinct_nontrivial": len(nt), "distribution": dist,
+            "rule": "sub-model senders through the `_fb_flag` parity mechanism: receiver before / between / after the sender's nodes, sender partly or "
+                    "wholly outside, stand-alone node calls, aborted steps, forced feedback; every per-step state, final states, flags, forward-entry "
+                    "counts and at-rest flag compared; non-trivial = the sender's flags disagree at rest after some operation",
+            "failing": [dict(keep[i], index="subsender:%d" % i) for i in failing], "error": err}
+
+
+def subsender_replay(case):
+    sc = case["scenario"]
+    b, obs = _ss_run_real(sc)
+    failing, err = core.run_cases("replay_subsender", SS_IMPORTS, [_ss_to_coq(sc, b, obs)])
+    return {"violates": bool(failing) or bool(err), "detail": err}
 
 
 # ------------------------------------------------------------------------------------------ oracle on the implementation
@@ -706,8 +963,48 @@ def _judge_flag_parity(rng, tag):
     return out
 
 
+def _judge_straddling(rng, tag):
+    """sub-model sender (a >> b) with the receiver placed BETWEEN its nodes (a >> R >> b, R <<= (a >> b)), fresh model: at step 0 the receiver sees the
+    sender's pre-existing output (zero), at step k its output of step k-1, and b is called once per step"""
+    import reservoirpy as rpy
+    rpy.verbosity(0)
+    from reservoirpy.node import Node
+    seen, calls = [], [0]
+
+    def init(node, x=None, **kw):
+        node.set_input_dim(x.shape[1]); node.set_output_dim(x.shape[1])
+
+    def fb_init(node, feedback=None):
+        node.set_feedback_dim(feedback.shape[1])
+
+    def recv(node, x):
+        seen.append(float(np.asarray(node.feedback())[0, 0]))
+        return x
+
+    def fb(node, x):
+        calls[0] += 1
+        return 2.0 * x + 1.0
+    sc = {"tag": tag, "kind": "straddling"}
+    X = scen.fl(scengen.rows(rng, 3, 1)) + 1.0
+    try:
+        a = Node(forward=lambda n, x: x, initializer=init, name="sd%s_a" % tag)
+        b = Node(forward=fb, initializer=init, name="sd%s_b" % tag)
+        R = Node(forward=recv, initializer=init, fb_initializer=fb_init, name="sd%s_R" % tag)
+        R <<= (a >> b)
+        (a >> R >> b).run(X)
+    except Exception as ex:  # noqa: BLE001
+        return _viol("submodel-sender:straddling:exception", "a >> R >> b with R <<= (a >> b) raises %r" % (ex,), sc)
+    exp = [0.0] + [2.0 * float(x[0]) + 1.0 for x in X[:-1]]
+    if not np.allclose(seen, exp, atol=1e-9) or calls[0] != len(X):
+        return _viol("submodel-sender:straddling-receiver:first-step-recomputed",
+                     "fresh model a >> R >> b with R <<= (a >> b) (the receiver sits between the sender's nodes): the receiver sees %r, the one-step-delayed sender "
+                     "outputs are %r; b is called %d times in a %d-step run (at the first step the flag bits of a and b disagree at read time, so the reduced sender "
+                     "is re-run on a's proxy)" % (seen, exp, calls[0], len(X)), sc, exp, seen)
+    return None
+
+
 def judge(case):
-    if case.get("kind") in ("modeltrain", "fitfb"):       # Model.train history / fit-with-feedback scenario: decided by the correspondence only
+    if case.get("kind") in ("modeltrain", "fitfb", "subsender"):       # Model.train history / fit-with-feedback scenario: decided by the correspondence only
         return None
     return _judge(case["scenario"])
 
@@ -732,6 +1029,9 @@ def oracle(ctx, scale=1):
             if v:
                 out.append(v)
         out += _judge_flag_parity(rng, "%d_%d" % (ctx.seed, i))
+        v = _judge_straddling(rng, "%d_%d" % (ctx.seed, i))
+        if v:
+            out.append(v)
     return {"evaluations": n + ctx.n(3, 20), "violations": out,
             "rule": "feedback value seen by a receiver (recovered from out = x + 100 fb) vs sender's previous output / forced value; fit and train forcing"}
 
@@ -740,6 +1040,9 @@ def replay(payload):
     ffc = [c for c in payload.get("corr_cases", []) if c.get("kind") == "fitfb"]
     if ffc:                                    # a disagreeing fit-with-feedback scenario stored by the correspondence
         return fitfb.replay(ffc[0])
+    ssc = [c for c in payload.get("corr_cases", []) if c.get("kind") == "subsender"]
+    if ssc:                                    # a disagreeing sub-model-sender history stored by the correspondence
+        return subsender_replay(ssc[0])
     mt = [c for c in payload.get("corr_cases", []) if c.get("kind") == "modeltrain"]
     if mt:                                     # a disagreeing Model.train history stored by the correspondence
         return trainmodel.replay(mt[0])
@@ -752,6 +1055,9 @@ def replay(payload):
         return {"violates": bool(vs), "detail": vs[:1]}
     if sc.get("kind") == "fit-submodel-sender":
         vs = [v for v in (_judge_fit_submodel_sender(core.random.Random(i), "rm%d" % i) for i in range(3)) if v]
+        return {"violates": bool(vs), "detail": vs[:1]}
+    if sc.get("kind") == "straddling":
+        vs = [v for v in (_judge_straddling(core.random.Random(i), "rs%d" % i) for i in range(2)) if v]
         return {"violates": bool(vs), "detail": vs[:1]}
     if sc.get("kind") == "flag-parity":
         vs = [v for i in range(2) for v in _judge_flag_parity(core.random.Random(i), "rf%d" % i) if v["key"] == payload.get("key", v["key"])]
